@@ -277,7 +277,14 @@ func c20(c *Ctx) {
 				// exhaustion is reported only when a comparison with a field of the reserve record says "beyond": x > limit
 				// (or x >= limit) held, not its opposite
 				beyond, within := false, false
-				for _, g := range guardsAt(ret.Block()) {
+				// only the test that leads straight to this return (other failure reasons have tests of their own)
+				var direct []Guard
+				for _, pr := range ret.Block().Preds {
+					if iff, ok := lastInstr(pr).(*ssa.If); ok && pr.Succs[0] != pr.Succs[1] {
+						direct = append(direct, Guard{Cond: iff.Cond, Pol: pr.Succs[0] == ret.Block(), If: iff})
+					}
+				}
+				for _, g := range direct {
 					bo, ok := g.Cond.(*ssa.BinOp)
 					if !ok {
 						continue
